@@ -7,7 +7,7 @@ import RbModel.ErrL.WfB
 /-! Line-protocol handlers for the models of the error layer (requests `errl.*`):
 `errl.compare` (generator model = normalised real instruction list, statement-address table and label-depth table),
 `errl.run` (VM model on the model-compiled code), `errl.ref` (reference semantics), `errl.wf` (the executable premise
-checker `RbModel.ErrL.progWfB`), all on the program serialised by `harness/src/errl_sx.rs`. -/
+checkers `RbModel.ErrL.progWfB` and `wfXB` — the clauses the simulation proof forced —, whose conjunction `progWfXB` is the premise of `Thm.ErrLSim.compile_correct_checked`), all on the program serialised by `harness/src/errl_sx.rs`. -/
 namespace RbModel.Drv.ErrL
 open RbModel RbModel.ErrL RbModel.ErrL.Compile
 open RbModel.Ast (Pos ty?)
@@ -111,7 +111,9 @@ def handle (cmd : String) (args : List Sexp) : Option String :=
       pure s!"({outcomeStr o} {out} ())"
   | "errl.wf", [prog] => do
       let prog ← sprogram? prog
-      pure (if progWfB prog then "(wf true)" else "(wf false)")
+      -- first the premise of the jump discipline and typing (`progWfB`: what the harness classifies by), then the clauses the
+      -- simulation proof forced (`wfXB`); the theorem's premise `progWfXB` is their conjunction
+      pure s!"(wf {if progWfB prog then "true" else "false"} (x {if wfXB prog.body then "true" else "false"}))"
   | _, _ => none
 
 end RbModel.Drv.ErrL
